@@ -743,3 +743,36 @@ Proof.
       try assumption. apply imp_not_lowered_R, Hi.
   - apply base_cell; [|exact Hb]. exact (denotes_explicit tbl n d _ Hd).
 Qed.
+
+(* ----------------------------- BUT MAT=0 keeps the inherited density *)
+Section WitnessVoid.
+  Context {T : Type} (SC : Scalar T) (v0 v1 : T).
+
+  Definition vtbl : table :=
+    [(1%Z, (" 1 -1.0", " -1 ", "imp:n=1")); (2%Z, ("", " like 1 but", " mat=0"))].
+
+  Lemma witness_void_like :
+    parse_one_cell SC 2 (wenv v0 v1) vtbl 1 None ("", " like 1 but", " mat=0") =
+    Ok (mkCell "0" (Some "-1.0") " -1 " v1 0%Z None None None None).
+  Proof. vm_compute. reflexivity. Qed.
+
+  (* the void card it abbreviates has no density *)
+  Lemma witness_void_explicit :
+    parse_one_cell SC 2 (wenv v0 v1) vtbl 1 None (" 0", " -1 ", "imp:n=1") =
+    Ok (mkCell "0" None " -1 " v1 0%Z None None None None).
+  Proof. vm_compute. reflexivity. Qed.
+End WitnessVoid.
+
+Theorem like_mat_void_refuted :
+  exists (e : env (T:=R)) (tbl : table) (c_like c_expl : cell (T:=R)),
+    lookup 1%Z tbl = Some (" 1 -1.0", " -1 ", "imp:n=1") /\
+    parse_one_cell RS 2 e tbl 1 None ("", " like 1 but", " mat=0") = Ok c_like /\
+    parse_one_cell RS 2 e tbl 1 None (" 0", " -1 ", "imp:n=1") = Ok c_expl /\
+    c_mat c_like = "0" /\ c_mat c_expl = "0" /\
+    c_rho c_like = Some "-1.0" /\ c_rho c_expl = None.
+Proof.
+  exists (wenv 0%R 1%R), vtbl. eexists. eexists. split; [reflexivity|].
+  split; [apply (witness_void_like RS 0%R 1%R)|].
+  split; [apply (witness_void_explicit RS 0%R 1%R)|].
+  repeat split; reflexivity.
+Qed.
